@@ -49,6 +49,7 @@ SPEC = {
     "post": post,
     "rule": "cases = (base problem, variant) pairs: 40 base problems (well-posed planted problems over all cone kinds, plus strongly primal- and dual-infeasible ones) x variants {presolve off, equilibration off, static regularisation off, faer backend, faer with 4 threads, auto backend with 1 thread, P given full symmetric, variables permuted, rows permuted inside scalar cones + NN cones split + cones reordered, adjacent NN cones merged, objective scaled by 2, 1/8, 3}; verdict class compared in Coq (c_class); when both runs end Solved their returned points are mapped back to base coordinates and the objective difference is bounded in exact dyadic arithmetic (c_cross) by the two gap tolerances plus the explicit residual slack of theorem C05_objectives_agree. Direct records: an identical call repeated is bit-for-bit identical, the same solver solved twice, 8 threads solving distinct problems concurrently reproduce the sequential results bit for bit, a solver solved after idle time and then again under a finite time limit returns the base verdict both times (idle time and earlier solves do not count against the limit). Non-trivial = both runs Solved; distinct = distinct (problem, variant).",
     "level": "proof",
+    "structure_code": None,
     "explanation": "Coq theorems (reals, every dimension): the exact identity p(x1) - d(x2,z2) = 1/2 (x1-x2)'P(x1-x2) + s1'z2 + r_d2'x1 - r_p1'z2 for any two points of the same data, weak duality across runs with the explicitly computable slack, the resulting bound on the difference of two runs' primal objectives, and the effect of scaling the objective; Props/C05_cones.v: the cone side of the formulations - rows permuted inside a nonnegative cone or a second-order tail, cones reordered with their rows, adjacent nonnegative cones split / merged, and the dual point scaled with the objective stay in K / K* (every cone kind). The run applies the transformations in Rust, solves both formulations and decides agreement inside Coq on the returned points (exact dyadic arithmetic). Thread schedules, backends and concurrency are observed on the generated problems only (partial).",
     "assumptions": ["the maps taking a variant's solution back to base coordinates (permutations, division of z by the objective scale) are harness code",
                     "runtime variations (thread count, concurrent instances, faer's parallel reductions) are explored, not proved"],
